@@ -627,7 +627,14 @@ func (ex *Exec) scanEffects(n ast.Node, vars map[types.Object]bool, eff *effects
 					eff.heapAll = true
 					if _, isFn := calleeOf(info, s).(*types.Func); !isFn {
 						if tv, ok := info.Types[fun]; ok && tv.Type != nil {
-							if sg, ok := under(tv.Type).(*types.Signature); ok && funcValueIsSink(sg) {
+							isPureCb := false
+							if id, ok := fun.(*ast.Ident); ok && ex.pureCallbackField(id.Name) {
+								isPureCb = true
+							}
+							if sel, ok := fun.(*ast.SelectorExpr); ok && ex.pureCallbackField(sel.Sel.Name) {
+								isPureCb = true
+							}
+							if sg, ok := under(tv.Type).(*types.Signature); ok && funcValueIsSink(sg) && !isPureCb {
 								eff.ghost["fail"] = true
 							}
 						}
@@ -755,4 +762,49 @@ func (ex *Exec) boxedComps(obj types.Object) []string {
 		return out
 	}
 	return []string{"ptr." + sanitize(ex.sortOf(t).Name)}
+}
+
+// sortSliceIntrinsic models sort.Slice(x, less) / sort.SliceStable for a literal comparator:
+// x becomes a permutation of its old value (trusted), and it is sorted with respect to the
+// comparator AS WRITTEN IN THE SOURCE: for all a < b the comparator, executed symbolically on
+// (b, a), does not return true. A wrong or missing key in the comparator therefore shows up in
+// whatever postcondition speaks about the order.
+func (ex *Exec) sortSliceIntrinsic(st *State, pc *preparedCall, k func(*State, []Val)) {
+	ex.intrinsics["sort.Slice/SliceStable: permutation of the input, ordered by the literal comparator (trusted)"] = true
+	xe := pc.call.Args[0]
+	var old Val
+	got := false
+	ex.eval(st, xe, func(_ *State, v Val) { old, got = v, true })
+	if !got || old.S.K != KSlice {
+		ex.oof(pc.call.Pos(), "sort.Slice on a non-slice")
+	}
+	nv := ex.freshWf(st, "sorted", ex.typeOf(xe))
+	n := app("s-len", nv.T)
+	st.assume(eq(n, app("s-len", old.T)))
+	st.assume(eq(app("s-nil", nv.T), app("s-nil", old.T)))
+	// permutation as an explicit bijection perm / inv on [0, n)
+	ex.nfresh++
+	perm, inv := fmt.Sprintf("perm!%d", ex.nfresh), fmt.Sprintf("inv!%d", ex.nfresh)
+	ex.declare(fmt.Sprintf("(declare-fun %s (Int) Int)", perm))
+	ex.declare(fmt.Sprintf("(declare-fun %s (Int) Int)", inv))
+	st.assume(fmt.Sprintf("(forall ((q_i Int)) (! (=> (and (<= 0 q_i) (< q_i %s)) (and (<= 0 (%s q_i)) (< (%s q_i) %s) (= (%s (%s q_i)) q_i) (= (select (s-arr %s) q_i) (select (s-arr %s) (%s q_i))))) :pattern ((select (s-arr %s) q_i)) :pattern ((%s q_i))))", n, perm, perm, n, inv, perm, nv.T, old.T, perm, nv.T, perm))
+	st.assume(fmt.Sprintf("(forall ((q_j Int)) (! (=> (and (<= 0 q_j) (< q_j %s)) (and (<= 0 (%s q_j)) (< (%s q_j) %s) (= (%s (%s q_j)) q_j))) :pattern ((select (s-arr %s) q_j)) :pattern ((%s q_j))))", n, inv, inv, n, perm, inv, old.T, inv))
+	ex.assignTo(st, xe, nv, func(st2 *State) {
+		// order: symbolic execution of the comparator on (q_b, q_a) with q_a < q_b
+		intT := types.Typ[types.Int]
+		qa, qb := Val{T: "q_a", S: SInt, GoT: intT}, Val{T: "q_b", S: SInt, GoT: intT}
+		probe := st2.clone()
+		base := len(probe.pc)
+		var cases []string
+		ex.callClosure(probe, pc.args[1].Clo, []Val{qb, qa}, func(st3 *State, rv []Val) {
+			if len(rv) != 1 {
+				return
+			}
+			cases = append(cases, implies(and(st3.pc[base:]...), not(rv[0].T)))
+		})
+		if len(cases) > 0 {
+			st2.assume(fmt.Sprintf("(forall ((q_a Int) (q_b Int)) (=> (and (<= 0 q_a) (< q_a q_b) (< q_b %s)) %s))", n, and(cases...)))
+		}
+		k(st2, nil)
+	})
 }
